@@ -510,7 +510,7 @@ class Gen:
                 self.ops.append({"k": "join", "l": i, "r": j, "p": None, "cmax": sorted(l.cols & rr.cols)})
                 self.pool.append(Shadow(l.cols | rr.cols, rr.eng, leaves=l.leaves | rr.leaves))
                 return
-        self_ok = r.random() < 0.1         # joins reading one table twice hit known finding F15: keep them rare
+        self_ok = r.random() < 0.5         # (joins reading one table twice: formerly known finding F15)
         ok = lambda s: not ((s.cols & l.cols) & {"u", "v", "z", "w"}) and (not s.pending or r.random() < self.allow_pending_binary) \
             and (self_ok or not (s.leaves & l.leaves))
         j = self.pick(ok)
